@@ -292,6 +292,8 @@ def gen_experiment(rng, faults=True, max_samples=5, max_beads=2, small=False, pl
             c = sorted(gb['mef'])[0]
             row['units'][c] = 'MEF'
             volt = volt + 75
+        if f is None and rng.chance(0.4 if any((u or '').strip().lower() == 'mef' for u in row['units'].values()) else 0.15):
+            volt = None            # a re-exported file without $PnV: the voltage check does not apply (documented optional)
         reuse = None
         if f is None and not plan and exp['samples'] and rng.chance(0.3):
             # the same file again, possibly seen through the sibling description of the cytometer
